@@ -35,7 +35,8 @@ TRUSTED = c08.TRUSTED + [
 ASSUMPTIONS = c08.ASSUMPTIONS + ["what a new session can change about equal inputs is set iteration order, dict "
                                  "insertion order and object identity (session_variant)"]
 RULE = ("generated acyclic values (depth<=4, width<=4; incl. sets/dicts of str/int/bytes/float/tuple/frozenset/path "
-        "keys, frozensets of frozensets, numpy arrays, objects) each with a twin built in shuffled insertion order; "
+        "keys, frozensets of frozensets, numpy arrays, objects) each with a twin built in shuffled insertion order, and "
+        "arrays held in six memory layouts (C, Fortran, transposed, strided, strided+transposed, negative stride); "
         "hash_function(value) and Ident(x=value)._checksum computed in one fresh interpreter per PYTHONHASHSEED, also "
         "after a cloudpickle round trip; distinct = distinct value tree, non-trivial = contains a set or dict with >= 2 "
         "elements")
@@ -98,6 +99,16 @@ def gen_groups(ctx, n):
     groups = []
     for c in ctx.corpus():
         groups.append({"name": "corpus:" + c.get("name", "?"), "variants": c["variants"]})
+    # arrays: one logical array in every memory layout (C, Fortran, transposed, strided, strided+transposed,
+    # negative stride), bare and nested; every layout must give the same identity in every session and after pickling
+    for k in range(6 if ctx.tier == "quick" else 30):
+        ids = hg.Ids()
+        vs = hg.nd_layouts(rng, ids)
+        if k % 3 == 1:
+            vs = [["VList", ids.new(), [v, ["VInt", k]]] for v in vs]
+        elif k % 3 == 2:
+            vs = [["VDict", ids.new(), [[["VStr", hg.s_hex("a")], v]]] for v in vs]
+        groups.append({"name": "layouts", "variants": vs})
     while len(groups) < n:
         ids = hg.Ids()
         r = rng.random()
